@@ -45,6 +45,17 @@ def _find_method(cls, name):
     raise Untranslatable('method %s.%s not found' % (cls.name, name))
 
 
+def _resolve_method(tree, cls, name):
+    """the method as Python would find it: in the class or, failing that, in its (single, same-file) base classes"""
+    while True:
+        for n in cls.body:
+            if isinstance(n, ast.FunctionDef) and n.name == name:
+                return cls, n
+        if len(cls.bases) != 1 or not isinstance(cls.bases[0], ast.Name) or cls.bases[0].id == 'object':
+            raise Untranslatable('method %s not found in %s or its bases' % (name, cls.name))
+        cls = _find_class(tree, cls.bases[0].id)
+
+
 def _is_self_attr(n, name=None):
     return (isinstance(n, ast.Attribute) and isinstance(n.value, ast.Name) and n.value.id == 'self'
             and (name is None or n.attr == name))
@@ -173,10 +184,10 @@ class Sym:
         if isinstance(s, ast.Expr) and ast.dump(s.value) == ast.dump(ast.parse('super().reset()', mode='eval').body):
             if len(self.cls.bases) != 1 or not isinstance(self.cls.bases[0], ast.Name):
                 raise Untranslatable('super() of a class with several / computed bases')
-            parent = _find_class(self.tree, self.cls.bases[0].id)
+            parent, meth = _resolve_method(self.tree, _find_class(self.tree, self.cls.bases[0].id), 'reset')
             saved = self.cls
             self.cls = parent
-            self.block(_find_method(parent, 'reset').body)
+            self.block(meth.body)
             self.cls = saved
             return
         if isinstance(s, ast.Assign) and len(s.targets) == 1:
@@ -347,14 +358,17 @@ def translate(repo):
            'From Coq Require Import ZArith List Bool Arith.\nImport ListNotations.\n'
            'From PV Require Import Base.Num Model.Controller.\n'
            'Section Gen.\nContext {F : Type} {NF : Num F}.\nLocal Open Scope num_scope.\n')
-    a = Sym('rtb', st, rtb)
-    a.block(_find_method(rtb, 'step').body)
+    k, m = _resolve_method(st, rtb, 'step')
+    a = Sym('rtb', st, k)
+    a.block(m.body)
     out += a.result('gen_rtb_step', '(c : rtb_cfg (F:=F)) (s : rtb_state (F:=F)) (loss : list F)')
-    r = Sym('rtb', st, rtb)
-    r.block(_find_method(rtb, 'reset').body)
+    k, m = _resolve_method(st, rtb, 'reset')
+    r = Sym('rtb', st, k)
+    r.block(m.body)
     out += r.result('gen_rtb_reset', '(s : rtb_state (F:=F))')
-    b = Sym('sop', sct, sop)
-    b.block(_find_method(sop, 'step').body)
+    k, m = _resolve_method(sct, sop, 'step')
+    b = Sym('sop', sct, k)
+    b.block(m.body)
     out += b.result('gen_sop_step', '(c : sop_cfg (F:=F)) (s : sop_state) (i : sop_in (F:=F))')
     out += _mpc_budget(os.path.join(repo, 'pypose', 'module', 'mpc.py'))
     notes = [_check_driver(sc, 'StopOnPlateau', 'optimize', 'self'),
